@@ -275,6 +275,29 @@ func gen(r *rand.Rand, prop, tier string, index int) any {
 		s.CloseAfter = -1
 		return s
 	}
+	if !long && r.IntN(15) == 0 {
+		// a key whose callback answer carries a source-address option, looked
+		// at once or several times before it signs, with a
+		// VerifiedPublicKeyCallback that may replace the Permissions
+		k := keyNames[r.IntN(4)]
+		al := algosFor(k)[0]
+		o := &Outcome{Kind: "accept", SA: "sa:" + saLists[r.IntN(len(saLists))]}
+		s.Stages = []Stage{{PKOn: true, PK: map[string]*Outcome{k: o}}}
+		s.PKAlgos = allPKAlgos
+		s.Verified = []string{"accept", "accept-sa", "accept-nil", ""}[r.IntN(4)]
+		s.VerifiedSA = saLists[r.IntN(len(saLists))]
+		s.Remote = remotes[r.IntN(len(remotes))]
+		s.Reqs = nil
+		for i, n := 0, r.IntN(4); i < n; i++ {
+			s.Reqs = append(s.Reqs, Req{Method: "pk", Key: k, Algo: al, Variant: "query"})
+		}
+		s.Reqs = append(s.Reqs, Req{Method: "pk", Key: k, Algo: al, Variant: "valid"})
+		if s.MaxAuthTries > 0 && s.MaxAuthTries < 3 {
+			s.MaxAuthTries = 6
+		}
+		s.CloseAfter = -1
+		return s
+	}
 	if !long && r.IntN(12) == 0 {
 		// the user name changes after a partial success, by way of requests
 		// that are refused anyway (none, a wrong password, a query), before
